@@ -915,6 +915,17 @@ func runCase(w *tr.Writer, seed uint64, idx int, focus string) {
 			woken(seq, 2*time.Second)
 		default:
 			quiet()
+			if !cfg.client && rnd.Chance(30) {
+				// C07: a descriptor handed to the user by DupListener is the user's: the framework never
+				// touches it again (the ledger flags any call on it) and it is not part of the leak check
+				if fd, err := h.eng.DupListener(dialNet, dialAddr); err == nil {
+					rec.mu.Lock()
+					delete(rec.owned, fd)
+					rec.userFds = append(rec.userFds, fd)
+					rec.mu.Unlock()
+					w.Hist("dup-listener")
+				}
+			}
 			if n := h.eng.CountConnections(); true {
 				open := 0
 				h.mu.Lock()
